@@ -35,11 +35,12 @@ def shapes_all_lengths(run, tier, nprng):
     cases = []
     for (L, S, st) in cfgs:
         for N in range(0, 3 * L + 4):
-            cases.append({"L": L, "S": S, "st": st, "N": N})
+            cases.append({"L": L, "S": S, "st": stubs.spec_style(st), "N": N, "style": st})
+    styles = [c.pop("style") for c in cases]
     rows = V.export_frames(cases)
     k = 0
     for row in rows:
-        L, S, st, N = row["L"], row["S"], row["st"], row["N"]
+        L, S, st, N = row["L"], row["S"], styles[k], row["N"]
         k += 1
         energy = bool(k & 1)
         pad = bool(k & 8)
